@@ -7,16 +7,19 @@ CONSTANT MaxBlocked
 K_sm == (1 :> "single" @@ 2 :> "multi")
 K_st == (1 :> "single" @@ 2 :> "twostep")
 K_smt == (1 :> "single" @@ 2 :> "multi" @@ 3 :> "twostep")
+K_fd == (1 :> "fdsingle" @@ 2 :> "multi")
+K_pool == (1 :> "poolsingle" @@ 2 :> "poolmulti")
+K_pm == (2 :> "poolmulti")
 
 \* View without the history variables: the values an operation will receive are
 \* a function of (operation, attempt, position), so this determines the future.
-viewNH == <<sq, inflight, nposted, cq, backlog, op, blocked, awoken>>
+viewNH == <<sq, inflight, nposted, cq, backlog, op, blocked, awoken, res, bring, vbuf>>
 
 \* Compact, injective text encoding of viewNH (node identity in the export).
 RECURSIVE Cat(_, _)
 Cat(f(_), s) == IF s = <<>> THEN "" ELSE f(Head(s)) \o Cat(f, Tail(s))
 B(b) == IF b THEN "1" ELSE "0"
-EncEntry(e) == (IF e.t = "op" THEN "o" ELSE "c") \o ToString(e.o)
+EncEntry(e) == (IF e.t = "op" THEN "o" ELSE IF e.t = "close" THEN "x" ELSE "c") \o ToString(e.o)
 EncCqe(c) == ToString(c.ud) \o ":" \o ToString(c.val) \o B(c.more) \o B(c.notif) \o ";"
 EncInt(i) == ToString(i) \o ","
 EncOp(o) == LET r == op[o] IN
@@ -27,10 +30,15 @@ EncOpFull(o) == EncOp(o) \o ToString(op[o].waker) \o ToString(op[o].att) \o B(in
 OpSeq == CHOOSE s \in [1..Cardinality(Ops) -> Ops] : \A i, j \in 1..Cardinality(Ops) : i < j => s[i] < s[j]
 Enc == Cat(EncEntry, sq) \o "|" \o Cat(EncCqe, cq) \o "|" \o Cat(EncCqe, backlog) \o "|"
        \o Cat(EncOpFull, OpSeq) \o "|" \o Cat(EncInt, blocked) \o "|" \o B(awoken)
+       \o "|" \o ToString(res) \o ToString(bring) \o ToString(vbuf)
 
 \* Export of the labelled transition graph: one line per explored transition.
+OpenSet == {v \in ResVals : FdKind(OpOfVal(v)) /\ res[v] \in {"kernel", "owned", "closing", "leaked"}}
+Snapshot(a) == [name |-> a.name, o |-> a.o, w |-> a.w, k |-> a.k, ret |-> a.ret, subm |-> a.subm,
+                wakes |-> a.wakes, frees |-> a.frees, blocks |-> a.blocks, parked |-> a.parked,
+                ch |-> a.ch, cqe |-> a.cqe, sync |-> a.sync, open |-> OpenSet', bring |-> bring']
 LogEdge ==
-    PrintT(<<"EDGE", Enc, ToJson(act'), Enc'>>)
+    PrintT(<<"EDGE", Enc, ToJson(Snapshot(act')), Enc'>>)
 
 \* Bound the exploration: the only unbounded structure is the list of parked
 \* wakers (every poll of a not-yet-submitted operation parks one more).
